@@ -22,6 +22,8 @@ THEOREMS = [
     "BeyondVerif.C07.beta_kepler_residual",
     "BeyondVerif.C07.beta_kepler_residual_abs",
     "BeyondVerif.C07.beta_gravity_constants",
+    "BeyondVerif.C07.beta_a0_reference",
+    "BeyondVerif.C07.beta_a0_kepler_law",
     "BeyondVerif.Sgp4Wrap.ord2ymd_spec",
     "BeyondVerif.Sgp4Wrap.jday_ymd2ord",
 ]
@@ -30,10 +32,10 @@ LEVEL_TEXT = ("Lean theorems: (1) default propagator with the sgp4 package as a 
               "(CPython's ord2ymd, modelled branch for branch) is a valid civil date that denotes the instant exactly for every date from year 1, and the "
               "library's own Julian-day formula reads it back correctly for 1901-2099; exact correspondence of the arguments really handed to the library. "
               "(2) native Sgp4Beta translated from its Python AST on every run: orthonormal frame (radius, radial velocity, speed identities for all angles), "
-              "Kepler loop exit => Newton correction < 1e-12 for every fuel, WGS-72 constants; correspondence 1e-9 relative. "
-              "'Native = reference within 1 cm' is oracle-only and currently FAILS (finding C07-native-a0-series).")
-LEVEL_NOTE = ("proof (partial): agreement of the native model with the third-party reference is not a theorem (two floating-point programs) - oracle only, with an open "
-              "finding; the library (SGP4/SDP4 theory itself) is a parameter; TLE text regeneration is C12's (hypothesis here; one open finding where it fails); "
+              "Kepler loop exit => Newton correction < 1e-12 for every fuel, WGS-72 constants, cached a0 = (k_e/n0'')^(2/3) as in the reference's initl "
+              "(true since fix 565c5a9); correspondence 1e-9 relative. 'Native = reference within 1 cm' is oracle-only (passes since 565c5a9).")
+LEVEL_NOTE = ("proof (partial): agreement of the native model with the third-party reference is not a theorem (two floating-point programs) - oracle only; "
+              "the library (SGP4/SDP4 theory itself) is a parameter; TLE text regeneration is C12's (hypothesis here); both past findings are fixed in /repo and pinned in corpus/C07_pinned.json; "
               "R -> double gap covered by tolerance-bounded correspondence; Lean kernel + propext/Classical.choice/Quot.sound; py2lean translator and harness trusted")
 TECHNIQUE = ("Lean 4 proof: omega/decide on a branch-for-branch model of CPython's calendar split; linear_combination / induction on fuel / norm_num on formulas "
              "translated from the Python AST; exact and tolerance differential correspondence; oracle against python-sgp4 called directly")
@@ -54,21 +56,19 @@ ASSUMPTIONS = [
     "fields_jday is exact integer arithmetic; the library evaluates its formula in doubles (resolution 40 us at JD 2.45e6: the property's |v| x 50 us)",
 ]
 NOT_COVERED = [
-    "'the native SGP4 returns the same state as the reference within 1 cm where the reference uses its full near-Earth model': two floating-point programs, one third-party - no theorem; S-oracle only (native vs sgp4.propagation.sgp4 at the same minutes since epoch, tolerance 1 cm + |v| x 1 us). The oracle currently finds 2-20 cm deviations: known finding C07-native-a0-series",
+    "'the native SGP4 returns the same state as the reference within 1 cm where the reference uses its full near-Earth model': two floating-point programs, one third-party - no theorem; S-oracle only (native vs sgp4.propagation.sgp4 at the same minutes since epoch, tolerance 1 cm + |v| x 1 us); it passes since /repo 565c5a9 (before: 2-20 cm, finding C07-native-a0-series, fixed)",
     "the SGP4/SDP4 theory itself (inside the library parameter `lib`), including deep-space resonance and lunar-solar terms",
     "native model: no theorem about the secular / long-period / short-period formulas being Vallado's (only translated and compared numerically); objects whose drag polynomial changes the semi-major axis by more than 2 % (oracle) / 20 % (correspondence) within the interval are excluded from the native comparisons (tallied)",
     "double rounding of the seconds field beyond 'within 2^-48 s' (time_resolution takes the half-microsecond bound as hypothesis)",
 ]
 OPEN = [
-    "finding C07-native-a0-series (open): Sgp4Beta recovers a0'' with the truncated series a0/(1-delta_0); proposed_fixes/C07-native-a0.diff",
-    "finding C07-regen-two-digit-exponent (open, shared with C12): Sgp4 cannot be initialised for TLEs whose ndotdot/B* is non-zero and below 1e-10; proposed_fixes/C07-unfloat-exponent.diff",
     "Hinnant days_from_civil as a third independent reading of the tuple was planned and not done (ymd2ord and the library's jday are proved)",
 ]
 RULE = ("correspondence: (a) 700/20000 edge datetimes 1957-2056 x 5 labels through the real Sgp4 with a stub library, (b) 300/8000 generated catalogue-like TLEs (all inclinations, e<=0.9, "
         "0.5-16.5 rev/day, |B*|<=1e-2, epochs 1973-2017, +-30 d, date or timedelta argument) through the real Sgp4 with the installed sgp4 package: arguments handed to twoline2rv / "
         "satrec.propagate intercepted and compared exactly with the model tuple, result compared bit for bit with 1000 x library(model tuple); (c) 500/12000 TLEs x 2 dates: Sgp4Beta init values "
         "and state vs the compiled Lean translation, rtol 1e-9. non-trivial = offset != 0; distinct = distinct request. oracle: default propagator vs sgp4 called directly on the original lines and "
-        "independently computed UTC fields (|v| x 50 us), timedelta argument, label independence (UTC/TAI/TT/GPS/UT1), native vs reference theory 1 cm in the full near-Earth domain")
+        "independently computed UTC fields (|v| x 50 us), the inputs of corpus/C07_pinned.json (past findings) first, timedelta argument, label independence (UTC/TAI/TT/GPS/UT1), native vs reference theory 1 cm in the full near-Earth domain")
 
 MU_KM = 398600.8          # WGS-72, km^3/s^2 (generator only: perigee heights of the generated TLEs)
 RE_KM = 6378.135
@@ -506,11 +506,40 @@ def check_tle(out, rng, l1, l2, info, offsets):
             out.fail(family_of(info, off, "native-label"), "native SGP4 gives different states for two labels of the same instant", dict(inp, other=str(other)), observed=goto, expected=gotn, dpos_m=dp)
 
 
+def info_of_lines(l1, l2):
+    """what the generator records about a TLE, recomputed from its text (pinned corpus, replay)"""
+    year = int(l1[18:20])
+    year += 1900 if year >= 57 else 2000
+    info = {"n": float(l2[52:63]), "e": float("0." + l2[26:33]), "inc": float(l2[8:16]), "epoch": _dt.datetime(year, 1, 1) + _dt.timedelta(days=float(l1[20:32]) - 1)}
+    a = (MU_KM / (info["n"] * 2 * math.pi / 86400) ** 2) ** (1 / 3)
+    info["a_km"] = a
+    info["perigee_km"] = a * (1 - info["e"]) - RE_KM
+    return info
+
+
+def pinned():
+    import json
+    return json.load(open(os.path.join(core.VERIF, "corpus", "C07_pinned.json")))["cases"]
+
+
+def pinned_cases(out, rng):
+    """corpus/C07_pinned.json: inputs of past findings (now fixed in /repo), run first on every tier through the same predicates,
+    so that a defect that returns is reported in its old family (no open finding matches it any more: VIOLATION)"""
+    for c in pinned():
+        offs = []
+        for k, off in enumerate(c["offsets_us"]):
+            label = LABELS[k % len(LABELS)]
+            offs.append((off, label, LABELS[(k + 2) % len(LABELS)]))
+        check_tle(out, rng, c["line1"], c["line2"], info_of_lines(c["line1"], c["line2"]), offs)
+        out.tally("pinned-corpus-tle")
+
+
 def oracle(ctx, widened):
     out = Outcome()
     rng = ctx.rng
     N = 2500 if (widened or ctx.thorough) else 220
     with eop():
+        pinned_cases(out, rng)
         for _ in range(N):
             l1, l2, info = gen_tle(rng)
             offsets = []
@@ -528,11 +557,7 @@ def replay(f):
     out = Outcome()
     i = f["input"]
     l1, l2 = i["line1"], i["line2"]
-    year = int(l1[18:20])
-    year += 1900 if year >= 57 else 2000
-    info = {"n": float(l2[52:63]), "e": float("0." + l2[26:33]), "inc": float(l2[8:16]), "epoch": _dt.datetime(year, 1, 1) + _dt.timedelta(days=float(l1[20:32]) - 1)}
-    a = (MU_KM / (info["n"] * 2 * math.pi / 86400) ** 2) ** (1 / 3)
-    info["perigee_km"] = a * (1 - info["e"]) - RE_KM
+    info = info_of_lines(l1, l2)
     label = i.get("label", "UTC")
     offs = [(i.get("offset_us", 0), label, o) for o in LABELS if o != label]
     with eop():
@@ -621,10 +646,11 @@ def wrapper_cases(ctx, out):
             out.count(key=reqs[-1] + label, kind="fields-stub-lib", label=label, roundtrip_drift_us=drift,
                       edge=("midnight" if target.time() == _dt.time(0) else "last-us" if target.microsecond == 999999 and target.second == 59 else "interior"))
         # stream 2: the installed sgp4 package, catalogue-like TLEs, +-30 d
+        stream = [(c["line1"], c["line2"], info_of_lines(c["line1"], c["line2"])) for c in pinned()]
         for _ in range(ctx.n(300, 8000)):
-            l1, l2, info = gen_tle(rng)
-            if tiny_fields(l1):
-                continue
+            stream.append(None)
+        for item in stream:
+            l1, l2, info = item if item is not None else gen_tle(rng)
             off = gen_offset_us(rng)
             target = info["epoch"] + off * US
             label = rng.choice(LABELS)
@@ -639,13 +665,18 @@ def wrapper_cases(ctx, out):
                     res = [float(x) for x in (orb.propagate(timedelta(microseconds=off)) if use_td else orb.propagate(date))]
                 except TypeError:
                     res = None          # the library reported an error code (decayed object ...): `False + False`
+                except Exception as e:
+                    # the wrapper could not hand anything to the library (text regeneration failed): nothing to compare with the
+                    # model here; the oracle reports it (family wrapper-regen:…)
+                    out.tally("fields-real-lib=wrapper-raises-" + type(e).__name__ + "-left-to-oracle")
+                    continue
             if use_td:
                 date = orb.date + timedelta(microseconds=off)
             utc_us = (date.change_scale("UTC").datetime - T0) // US
             reqs.append(f"sgp4fields {utc_us}")
             meta.append(("real", rec, res, {"line1": l1, "line2": l2, "utc": target.isoformat(), "label": label, "offset_us": off, "timedelta": use_td}, (l1, l2)))
             out.count(key=(l1, off, label), nontrivial=off != 0, kind="fields-real-lib", label=label, lines="identical" if rec.lines == [l1, l2] else "differ",
-                      deep=info["n"] < 6.4, lib_error=res is None, arg="timedelta" if use_td else "date")
+                      tiny_exponent_field=bool(tiny_fields(l1)), deep=info["n"] < 6.4, lib_error=res is None, arg="timedelta" if use_td else "date")
         # malformed request: the model rejects what cannot be a datetime
         reqs.append("sgp4fields -5")
         meta.append(("bad", None, None, None, None))
